@@ -23,6 +23,15 @@ fn main() {
         unsafe { std::env::remove_var(v) };
     }
     dbx::install_subscriber();
+    // Watchdog of the whole process: never hang the caller.
+    {
+        let limit = simcore::env_usize("VERIF_BUDGET_S", 1500) as u64 + 3600;
+        std::thread::spawn(move || {
+            std::thread::sleep(std::time::Duration::from_secs(limit));
+            eprintln!("HARNESS-ERROR: watchdog: still running after {limit}s");
+            std::process::exit(simcore::EXIT_HARNESS);
+        });
+    }
     let args: Vec<String> = std::env::args().collect();
     let cmd = args.get(1).map(|s| s.as_str()).unwrap_or("");
     let mut tier = std::env::var("VERIF_TIER").unwrap_or_else(|_| "quick".into());
